@@ -36,6 +36,10 @@ CLAIMED = {
          "Seeded exploration of programs/inputs in simulated block contexts; the simulation contributes state and block-context variety and the proposer/validator agreement for these blocks.", LEDGER_NOTE, "3 C15"),
  "C12": ("exploration", "deterministic simulation with a corrupting peer: messages of all 19 kinds taken from the running simulated ledger, damaged at frame / payload / object level (incl. blocks and transactions assembled from decodable parts and re-signed by the legitimate proposer) and delivered through the real protoPeer.ReadMsg -> Decode -> IdenaGossipHandler.handle path, followed by the consensus loop's consumption (GetProposedBlock -> ValidateBlock, pending proposals, flip queue, AddBlock); oracle: no escaping panic, no hang, allocation per message within 64 x frame + 128 MiB, victim keeps following the chain",
          "Structure-aware mutation in context, not coverage-guided fuzzing: 'for every byte string' is sampled; allocation is measured by TotalAlloc growth and only the 'claims gigabytes' class is flagged; a panic recovered by TxPool.add's own gate counts as a reject.", "libp2p stream replaced by an in-memory byte queue; the consensus loop is replaced by the harness calling the same entry points; Flipper.writeLoop body run synchronously.", "3 C12"),
+ "C16": ("exploration", "deterministic simulation of whole validation ceremonies (3-10 replicas, each running the real ValidationCeremony, Flipper and KeysPool for its own identity; simulated users; lossy gossip of flips, keys and packages; restarts; peer re-synchronisation) plus the lottery evaluated as a function over tape-drawn shard layouts under two map seeds; oracle: cross-replica and after-restart equality of the lottery, range / duplicate / quota / non-empty-long-list invariants on what the node hands to its user, assignment <=> key recipient, decryption by exactly the recipients (real packages, real node keys)",
+         "The 'for all sizes' part of the property is a pure function of its inputs: it is sampled (0-300 candidates), not proved; the simulator contributes cross-replica agreement under different map seeds, restore after restart, and key delivery under message loss.", "Users, gossip transport and the consensus loop are simulated; identities allocated in genesis have no public key in the state, so key delivery is judged for identities created by invitation + activation.", "3 C16"),
+ "C17": ("exploration", "deterministic simulation of whole validation ceremonies: replicas differ in map seed, zone, clock skew, arrival of transactions / keys, restarts inside every phase, absence with catch-up from blocks only, first evaluation at proposal vs validation vs insertion (cache hit), competing block at the finishing height validated first; oracle: every replica accepts the block that finishes the validation (equal roots), equal captured epoch results, and per-identity rules judged from on-chain facts only",
+         "Decision-boundary score tuples are sampled through drawn user accuracies, not enumerated; 'missed the session' is taken in its narrowest on-chain sense; validations in which nobody is validated (the protocol's fail-safe keeps every identity) are excluded from the per-identity rules.", "Users are simulated (answers against a hidden truth per flip, through the node's own SubmitShortAnswers / SubmitLongAnswers); gossip and the consensus loop are simulated; three goroutines that block on real channels or tickers are replaced by their bodies run after every block.", "3 C17"),
  "C19": ("exploration", "seeded request-shape x transport x life-cycle matrix against the real rpc.Server with a probe service (real goroutines, order-insensitive oracle; no simulated scheduler: the gate cannot depend on schedules)",
          "Low-leverage use of the technique, stated as such: seeded generation of exchanges over in-memory transports plus a deterministic life-cycle probe (request sent to the initial endpoint at the DatabaseInitEvent of node.NewNodeWithInjections).", "In-memory transports (httptest recorder, net.Pipe) instead of sockets for the component part; the life-cycle part uses a real localhost listener and abandons node construction at the content-store stub.", "3 C19"),
  "C20": ("exploration", "deterministic simulation: peers as tasks announcing to the real PushPullManager/holder/tracker, tracker loop + gc as tasks on the virtual clock, go-cache on the virtual clock, responder with drawn latencies; pull-request history rules, bounded liveness after announcements stop, drain of internal sizes",
